@@ -2,6 +2,7 @@
 random abstract programs / byte strings recorded from the implementation and judged by TLC."""
 from __future__ import annotations
 import json, multiprocessing as mp, os, random, shutil, signal, sys
+from .par import SafePool
 from concurrent.futures import ThreadPoolExecutor
 from . import tlc
 from .common import Report, REPO
@@ -146,6 +147,76 @@ def _replay_dis(recs):
     return out
 
 
+def _replay_dis3(recs):
+    """every 3-byte string with the given two-byte prefixes: terminates (one watchdog per prefix), decodes iff the
+    specification says so, and compile(decompile(b)) = b"""
+    ts = _impl()
+    out = []
+    for r in recs:
+        a, b = r['a'], r['b']
+
+        def sweep():
+            bad = []
+            for x in range(256):
+                s3 = bytes([a, b, x])
+                try:
+                    lines = ts.decompile_script(s3)
+                    ok = True
+                except BaseException as e:
+                    if isinstance(e, (KeyboardInterrupt, SystemExit, _Timeout)):
+                        raise
+                    ok = False
+                if ok != bool(r['oks'][x]):
+                    bad.append(f"decompile_script({s3.hex()}): {'listing' if ok else 'error'}; specification: {'listing' if r['oks'][x] else 'error'}")
+                elif ok:
+                    try:
+                        back = ts.compile_script('\n'.join(lines))
+                    except BaseException as e:
+                        if isinstance(e, (KeyboardInterrupt, SystemExit, _Timeout)):
+                            raise
+                        back = f'{type(e).__name__}: {e}'
+                    if back != s3:
+                        bad.append(f'compile(decompile({s3.hex()})) = {back.hex() if isinstance(back, bytes) else back}')
+            return bad
+        st, val = with_timeout(sweep, 60)
+        if st == 'timeout':
+            out.append([f'decompile_script did not terminate on some string {bytes([a, b]).hex()}xx'])
+        elif st != 'ok':
+            out.append([f'sweep {bytes([a, b]).hex()}xx: {val}'])
+        else:
+            out.append(val)
+    return out
+
+
+def mc_dis3x(rep: Report):
+    """C12 thorough: all 16,777,216 byte strings of length 3"""
+    res = tlc.run_tlc('AsmMC', CFG % 'disasm3x', workers=16, timeout=6000, heap='12g')
+    rep.add_tlc(res, 'mc:disasm3x')
+    if res.violated:
+        rep.violation(f'TLC: {res.violated} in AsmMC family disasm3x', {'kind': 'mc', 'trace': res.errtrace[:3000]})
+        return
+    recs = [r for r in res.records if isinstance(r, dict) and r.get('k') == 'dis3']
+    if len(recs) != 65536:
+        raise tlc.MachineryError(f'disasm3x: {len(recs)} prefixes instead of 65536')
+    n = 14 * 16
+    chunks = [recs[i::n] for i in range(n)]
+    with SafePool(14) as pool:
+        outs = pool.map(_replay_dis3, chunks)
+    bad = 0
+    for ci, out in enumerate(outs):
+        for j, probs in enumerate(out):
+            r = recs[ci + j * n]
+            rep.case(f"dis3/{r['a']}/{r['b']}")
+            rep.evals = getattr(rep, 'evals', 0)
+            if probs:
+                bad += len(probs)
+                rep.violation(f'disasm3x: {probs[0][:500]}' + (f' (+{len(probs) - 1} more with this prefix)' if len(probs) > 1 else ''),
+                              {'kind': 'replay', 'family': 'disasm3x', 'record': {'a': r['a'], 'b': r['b']}})
+            else:
+                rep.traces += 256
+    rep.extra.setdefault('families', {})['disasm3x'] = {'strings': 256 * len(recs), 'mismatches': bad}
+
+
 def mc_family(rep: Report, fam: str, which: str, seed: int = 0, timeout: int = 3000):
     """which: 'asm' (C11: compile side) or 'dis' (C12: listing side) decides which disagreements count"""
     res = tlc.run_tlc('AsmMC', CFG % fam, workers=8, timeout=timeout, heap='10g')
@@ -156,7 +227,7 @@ def mc_family(rep: Report, fam: str, which: str, seed: int = 0, timeout: int = 3
     recs = [r for r in res.records if isinstance(r, dict) and 'k' in r]
     n = 14 * 4
     chunks = [recs[i::n] for i in range(n)]
-    with mp.get_context('fork').Pool(14) as pool:
+    with SafePool(14) as pool:
         if recs and recs[0]['k'] == 'asm':
             outs = pool.map(_replay_asm, [(ch, seed + i) for i, ch in enumerate(chunks)])
         else:
